@@ -55,14 +55,16 @@ class Setting:
         p = self.p
         return (C.FQ(P[0] * lam % p), C.FQ(P[1] * lam % p), C.FQ(lam % p))
 
-    def pt2(self, fam, Q, lam=(1, 0)):
+    def pt2(self, fam, Q, lam=(1, 0), fq_coeffs=False):
+        """fq_coeffs: Fp2 coordinates carry same-family FQ objects instead of ints"""
         C = self.curve(fam)
+        mk = (lambda v: C.FQ2([C.FQ(c) for c in v])) if fq_coeffs else (lambda v: C.FQ2(list(v)))
         if fam == "ref":
-            return None if Q is None else (C.FQ2(list(Q[0])), C.FQ2(list(Q[1])))
+            return None if Q is None else (mk(Q[0]), mk(Q[1]))
         if Q is None:
             raise ValueError("infinity: use inf2()")
         F2 = self.F2
-        return (C.FQ2(list(F2.mul(Q[0], lam))), C.FQ2(list(F2.mul(Q[1], lam))), C.FQ2(list(lam)))
+        return (mk(F2.mul(Q[0], lam)), mk(F2.mul(Q[1], lam)), mk(lam))
 
     def inf1(self, fam):
         """representatives of infinity in G1 (library side)"""
